@@ -102,7 +102,28 @@ func ruleOpenFileResetsChecksum(w *core.World, r *core.Report) {
 			n++
 		}
 	}
-	esc := core.PathFromBlock(f.Blocks[0], isSuccessReturn, isReset)
+	// the reset itself, or a call of a helper that exists for this one call (its receiver then stands for
+	// openFile's own: core.Unwrap reads the parameter as the argument) and performs the reset of this writer's
+	// checksum on every way to its return
+	resetOfThisWriter := func(in ssa.Instruction) bool {
+		if !isReset(in) {
+			return false
+		}
+		fa := in.(*ssa.Store).Addr.(*ssa.FieldAddr)
+		return len(f.Params) > 0 && core.Unwrap(fa.X) == ssa.Value(f.Params[0])
+	}
+	resets := func(in ssa.Instruction) bool {
+		if isReset(in) {
+			return true
+		}
+		c, ok := in.(*ssa.Call)
+		if !ok || c.Call.IsInvoke() {
+			return false
+		}
+		g := c.Call.StaticCallee()
+		return g != nil && core.ExpandedInto(g) == c && passedOnEveryReturn(g, resetOfThisWriter, 0)
+	}
+	esc := core.PathFromBlock(f.Blocks[0], isSuccessReturn, resets)
 	r.Check(n > 0 && esc == nil, "AofRotater.openFile/fresh-checksum", f.Pos(), "a segment is opened on a path that does not start a fresh running checksum (crc = digest.New()): the CRC stored in the header of a rotated segment then covers the bytes of the segments before it, and a reader that verifies refuses bytes that equal what was written (resets found: %d)", n)
 }
 
